@@ -49,6 +49,22 @@ def mod(which):
     return m
 
 
+PYX_UNREADABLE = []
+
+
+def PRECHECK(ctx):
+    """run.py calls this before the cases: can the working tree's c_common.pyx still be read by the transliterator?  If not,
+    that is a broken correspondence obligation (named in the replay file), not a behaviour of the code: the streams
+    that need the transliteration are skipped and the remaining ones run at the escalated budget"""
+    del PYX_UNREADABLE[:]
+    try:
+        mod("cur")
+    except Exception as e:  # noqa
+        PYX_UNREADABLE.append("%s: %s" % (type(e).__name__, str(e)[:200]))
+        return ["transliterator (harness/pyx_translit.py) cannot read the current c_common.pyx: " + PYX_UNREADABLE[0]]
+    return []
+
+
 def callm(which, fn, *args):
     return getattr(mod(which), fn)(*args)
 
@@ -104,6 +120,14 @@ KNOWN = {"C15-sentinel-leak": k_decoder_sentinel}
 
 
 def cases(ctx):
+    for c in _cases_all(ctx):
+        if PYX_UNREADABLE and ((c["real"][0].startswith("h:props.C15.") and len(c["real"][1]) > 0 and c["real"][1][0] == "cur")
+                               or c.get("tag") == "E-sequence"):
+            continue
+        yield c
+
+
+def _cases_all(ctx):
     rng = ctx.rng
     import core
     H = "h:props.C15."
